@@ -45,14 +45,23 @@ type Obs struct {
 	UsedBack              *Val
 	UsedOutside, UsedDeep bool
 	Obj                   *ObjObs
-	Ffmt                  map[uint64]string
+	// the caller wrote through every pointer, slice and map of the first converted-back value; then an equal value,
+	// built anew, is wrapped and converted back
+	Again               bool
+	AgainErr, AgainText string
+	AgainBack           *Val
+	AgainDeep           bool
+	Ffmt                map[uint64]string
+	// the attributes the object type derived from the struct of the case declares itself (those of a declared parent
+	// excluded), in declaration order; nil when the case is not a struct or a pointer to one
+	Own []string
 	// the same three steps in a fresh context in which NO struct type was registered: WrapReflectedType derives
 	// anonymous object types from the unnamed struct types (types.go wrapReflectedType, case reflect.Struct)
-	Anon                                  bool
+	Anon                                   bool
 	AnonTypeErr, AnonTypeText, AnonWrapErr string
-	AnonInst                              bool
-	AnonBackErr, AnonBackText             string
-	AnonDeep                              bool
+	AnonInst                               bool
+	AnonBackErr, AnonBackText              string
+	AnonDeep                               bool
 }
 
 // ObjObs: the struct <-> object clause, observed for cases whose shape is a struct or a pointer to one.
@@ -100,6 +109,46 @@ func usedDest(c px.Context, cs *Case) reflect.Value {
 	return dest
 }
 
+// scramble overwrites every scalar the value owns through its pointers, slices, maps and (settable) fields.
+func scramble(rv reflect.Value) {
+	switch rv.Kind() {
+	case reflect.Ptr:
+		if !rv.IsNil() {
+			scramble(rv.Elem())
+		}
+	case reflect.Slice:
+		for i := 0; i < rv.Len(); i++ {
+			scramble(rv.Index(i))
+		}
+	case reflect.Map:
+		for _, k := range rv.MapKeys() {
+			e := reflect.New(rv.Type().Elem()).Elem()
+			e.Set(rv.MapIndex(k))
+			scramble(e)
+			rv.SetMapIndex(k, e)
+		}
+	case reflect.Struct:
+		for i := 0; i < rv.NumField(); i++ {
+			scramble(rv.Field(i))
+		}
+	}
+	if !rv.CanSet() {
+		return
+	}
+	switch rv.Kind() {
+	case reflect.Int, reflect.Int8, reflect.Int16, reflect.Int32, reflect.Int64:
+		rv.SetInt(^rv.Int())
+	case reflect.Uint, reflect.Uint8, reflect.Uint16, reflect.Uint32, reflect.Uint64:
+		rv.SetUint(^rv.Uint())
+	case reflect.Float32, reflect.Float64:
+		rv.SetFloat(-rv.Float() - 1)
+	case reflect.String:
+		rv.SetString(rv.String() + "!")
+	case reflect.Bool:
+		rv.SetBool(!rv.Bool())
+	}
+}
+
 func guarded(f func()) (errc, text string) {
 	defer func() {
 		if r := recover(); r != nil {
@@ -128,6 +177,12 @@ func runAnon(cs *Case, o *Obs) {
 	structShapes(cs.S, map[string]bool{}, &structs)
 	if len(structs) == 0 {
 		return
+	}
+	for _, s := range structs {
+		if s.G != "" {
+			// only an UNNAMED struct type is derived on the fly (types.go wrapReflectedType: vt.Name() == ``)
+			return
+		}
 	}
 	o.Anon = true
 	pcore.Do(func(c px.Context) {
@@ -174,7 +229,12 @@ func runCase(cs *Case) *Obs {
 		o.RegErr, o.RegText = guarded(func() {
 			for _, s := range structs {
 				rt := s.RType()
-				t := c.Reflector().TypeFromReflect(s.N, nil, rt)
+				var parent px.Type
+				if s.P {
+					// the embedded first field is the Go rendering of the parent type (registered before: inner first)
+					parent = typeOf[s.F[0].T.N]
+				}
+				t := c.Reflector().TypeFromReflect(s.N, parent, rt)
 				px.AddTypes(c, t)
 				env.known[rt] = s
 				typeOf[s.N] = t
@@ -207,10 +267,26 @@ func runCase(cs *Case) *Obs {
 		if o.TypeErr == "" {
 			_, _ = guarded(func() { o.Inst = px.IsInstance(pt, w) })
 		}
+		var first reflect.Value
 		o.BackErr, o.BackText = guarded(func() {
 			back := c.Reflector().Reflect2(w, rt)
 			o.Deep, o.Back, o.BackOutside = deepEqual(cs.S, gv, cs.V, back, env.known)
+			first = back
 		})
+		if o.BackErr == "" && o.Deep {
+			// what a caller does with a value it owns: it writes through it.  Nothing of that may show in the conversion
+			// of another, equal value (built anew: it shares no memory with the first).  Last step of the case, because
+			// the first converted-back value may share its pointees with the input (a wrapped struct keeps its Go value).
+			defer func() {
+				o.Again = true
+				o.AgainErr, o.AgainText = guarded(func() {
+					scramble(first)
+					gv2 := Build(cs.S, cs.V)
+					back := c.Reflector().Reflect2(px.Wrap(c, gv2.Interface()), rt)
+					o.AgainDeep, o.AgainBack, _ = deepEqual(cs.S, gv2, cs.V, back, env.known)
+				})
+			}()
+		}
 		if len(cs.H) > 0 {
 			o.Used = true
 			o.UsedErr, o.UsedText = guarded(func() {
@@ -229,6 +305,14 @@ func runCase(cs *Case) *Obs {
 			return
 		}
 		ot := typeOf[ss.N]
+		_, _ = guarded(func() {
+			if ih, ok := ot.(interface{ InitHash() px.OrderedMap }); ok {
+				o.Own = []string{}
+				if as, ok := ih.InitHash().Get4("attributes"); ok {
+					as.(px.OrderedMap).EachKey(func(k px.Value) { o.Own = append(o.Own, k.String()) })
+				}
+			}
+		})
 		ob := &ObjObs{}
 		o.Obj = ob
 		attrs := ot.AttributesInfo().Attributes()
@@ -341,9 +425,9 @@ func classify(s *Shape, v *Val, pos byte, underPtr, inField, inIface bool, out *
 	case "slice":
 		if v.Nil {
 			switch {
-			case pos == 'W' && (s.E.K == "int" || s.E.K == "string" || s.E.K == "iface"):
+			case pos == 'W' && exact(s) && (s.E.K == "int" || s.E.K == "string" || s.E.K == "iface"):
 				add(clsNilFast)
-			case pos == 'W' && s.E.K == "uint8":
+			case pos == 'W' && exact(s) && s.E.K == "uint8":
 				// a nil []byte handed to wrap() is a Binary without bytes: accepted by Binary, converts back to nil
 			case underPtr:
 				add(clsPtrNil)
@@ -358,7 +442,7 @@ func classify(s *Shape, v *Val, pos byte, underPtr, inField, inIface bool, out *
 	case "map":
 		if v.Nil {
 			switch {
-			case pos == 'W' && s.Key.K == "string" && (s.E.K == "string" || s.E.K == "iface"):
+			case pos == 'W' && exact(s) && s.Key.K == "string" && (s.E.K == "string" || s.E.K == "iface"):
 				add(clsNilFast)
 			case underPtr:
 				add(clsPtrNil)
@@ -393,6 +477,13 @@ func classify(s *Shape, v *Val, pos byte, underPtr, inField, inIface bool, out *
 			classify(s.F[i].T, e, 'R', false, true, false, out)
 		}
 	}
+}
+
+// exact: the slice / map type is the unnamed type over unnamed elements, i.e. it can be IDENTICAL to one of the types
+// the type switch of wrap and the wellKnown table name ([]byte, []int, []string, []interface{}, map[string]string,
+// map[string]interface{}); a defined type, or a slice of a defined scalar, never is.
+func exact(s *Shape) bool {
+	return s.G == "" && (s.E == nil || s.E.G == "") && (s.Key == nil || s.Key.G == "")
 }
 
 func classesOf(cs *Case) *classes {
@@ -447,6 +538,15 @@ func directCheck(cs *Case, o *Obs, res *lib.Result) (violated bool) {
 	}
 	if o.WrapErr != "" {
 		return
+	}
+	// clause 1 for an equal value built anew, after the caller wrote through the first converted-back value
+	if o.Again && !outside {
+		switch {
+		case o.AgainErr != "":
+			viol("roundtrip", "after the caller wrote through the first converted-back value, converting an equal value fails: "+o.AgainErr+" "+o.AgainText, rtTags)
+		case !o.AgainDeep:
+			viol("roundtrip", "after the caller wrote through the pointers of the first converted-back value, an equal value (built anew) converts back to "+backText(cs.S, o.AgainBack), rtTags)
+		}
 	}
 	// clause 1 observed at Reflector.ReflectTo with a destination that was used before (it holds the last value of
 	// the history): the destination must end up deeply equal to the value that was wrapped, whatever it held
